@@ -1,6 +1,8 @@
 SPECIFICATION TraceSpec
 CONSTANTS
   Blocks = {}
+  FirstBlocks = {}
+  SecondBlocks = {}
   MathNames = {"sqrt", "exp", "log", "floor", "pi", "tanh", "sinh", "cosh", "atan2", "log1p", "expm1", "log2", "hypot", "e", "tau", "erf", "copysign", "degrees", "gamma", "trunc", "fabs"}
   ResidChoices = {TRUE, FALSE}
   MaxGenerations = 2
